@@ -77,6 +77,14 @@ func (k *c03) RunCase(c *core.Ctx, i int) {
 		if showAll {
 			args = append(args, "-s", ".")
 		}
+		// a display mapping that only matches asset (and liability) accounts: positions are
+		// regrouped, the gain still goes to the income account mirroring the unmapped path
+		var mp *c03Mapping
+		if fr.Intn(3) == 0 {
+			mp = &c03Mapping{level: 1 + fr.Intn(2), suffix: fr.Intn(3), types: [][]string{{"Assets"}, {"Assets", "Liabilities"}}[fr.Intn(2)]}
+			args = append(args, "--map", mp.flag())
+			c.Count("reports_with_display_mapping", 1)
+		}
 		args = append(args, "j.knut")
 		c.Eval(1)
 		start, end, ok := ref.Window(j, f.From, f.To)
@@ -95,6 +103,9 @@ func (k *c03) RunCase(c *core.Ctx, i int) {
 		}
 		exp, moved, skip := c03Expected(j, posts, pb, v, start, periods, f.Diff, showAll, f.Close)
 		c.Count("rows_not_judged_ambiguous_price_chain", len(skip))
+		if mp != nil {
+			exp, skip = mp.apply(exp, skip)
+		}
 		why := c03Compare(string(res.Stdout), exp, skip, periods, showAll)
 		if why != "" {
 			c.Violation(core.Witness{Case: i, Key: "valued-cell", Why: why,
@@ -114,6 +125,53 @@ func (k *c03) RunCase(c *core.Ctx, i int) {
 }
 
 type c03Key struct{ acc, com string }
+
+// c03Mapping is a --map rule <level>:<suffix>,^(types): matched accounts keep their first
+// <level> and last <suffix> segments, unless they are too short for that.
+type c03Mapping struct {
+	level, suffix int
+	types         []string
+}
+
+func (m *c03Mapping) flag() string {
+	return fmt.Sprintf("%d:%d,^(%s)", m.level, m.suffix, strings.Join(m.types, "|"))
+}
+
+func (m *c03Mapping) shorten(acc string) string {
+	ss := strings.Split(acc, ":")
+	hit := false
+	for _, t := range m.types {
+		hit = hit || ss[0] == t
+	}
+	if !hit || m.suffix >= len(ss) || m.level > len(ss)-m.suffix {
+		return acc
+	}
+	split := len(ss) - m.suffix
+	return strings.Join(append(append([]string(nil), ss[:m.level]...), ss[split:]...), ":")
+}
+
+func (m *c03Mapping) apply(exp map[c03Key][]c03Row, skip map[c03Key]bool) (map[c03Key][]c03Row, map[c03Key]bool) {
+	out, oskip := map[c03Key][]c03Row{}, map[c03Key]bool{}
+	for k, rows := range exp {
+		nk := c03Key{m.shorten(k.acc), k.com}
+		if out[nk] == nil {
+			out[nk] = make([]c03Row, len(rows))
+			for ci := range rows {
+				out[nk][ci] = c03Row{val: new(big.Rat), budget: new(big.Rat)}
+			}
+		}
+		for ci, row := range rows {
+			o := &out[nk][ci]
+			o.val.Add(o.val, row.val)
+			o.budget.Add(o.budget, row.budget)
+			o.moved = o.moved || row.moved
+		}
+	}
+	for k := range skip {
+		oskip[c03Key{m.shorten(k.acc), k.com}] = true
+	}
+	return out, oskip
+}
 
 // c03Expected computes, per (row account, commodity or "" when aggregated), the
 // expected cells and budgets.
